@@ -34,6 +34,8 @@ func C12(c *Ctx) {
 	r.Rule("C12/R2", "all round entropy derives from the base seed", 8)
 	r.Rule("C12/R3", "no ambient non-determinism in replayed handlers", 2)
 	r.Rule("C12/R4", "log after compute, file after log", 2)
+	r.Rule("C12/R5", "a replayed step overwrites what its first run stored: no database write of the machine is skipped (or turned into an error) because the entry already exists", 1)
+	c12OverwriteOnReplay(c)
 
 	po := c.Fn("C12/R1", "airgapped", "Machine", "ProcessOperation")
 	if po != nil {
@@ -307,4 +309,91 @@ func c12Nondeterminism(c *Ctx, root *ssa.Function) (bad, reviewed []string) {
 	sort.Strings(bad)
 	sort.Strings(reviewed)
 	return
+}
+
+
+// c12OverwriteOnReplay: in the airgapped package, wherever a function both queries (Has/Get) and writes (Put) the same
+// database key, the write is still reached on the "entry exists" edge of the query.
+func c12OverwriteOnReplay(c *Ctx) {
+	r := c.R
+	sp := c.P.SSAPkg("airgapped")
+	if sp == nil {
+		r.Unknown("C12/R5", "airgapped:package", "the airgapped package is loaded", "", "package not found")
+		return
+	}
+	isDB := func(ci ssa.CallInstruction, name string) bool {
+		id := ssax.FuncID(ssax.CalleeObj(ci))
+		return id == "github.com/syndtr/goleveldb/leveldb.(DB)."+name || id == "github.com/syndtr/goleveldb/leveldb.(Transaction)."+name
+	}
+	nPut, nQ := 0, 0
+	var bad []string
+	// the writes of the steps: functions reachable from ProcessOperation (construction-time "initialise if missing"
+	// writes of NewMachine / key and seed set-up are not replayed)
+	scope := map[*ssa.Function]bool{}
+	if po := c.Fn("C12/R5", "airgapped", "Machine", "ProcessOperation"); po != nil {
+		cg := c.P.CallGraph()
+		var walk func(f *ssa.Function)
+		walk = func(f *ssa.Function) {
+			if f == nil || scope[f] || !load.InModule(f) {
+				return
+			}
+			scope[f] = true
+			if n := cg.Nodes[f]; n != nil {
+				for _, e := range n.Out {
+					walk(e.Callee.Func)
+				}
+			}
+		}
+		walk(po)
+	}
+	for fn := range scope {
+		if fn.Pkg != sp || c.isTestFunc(fn) {
+			continue
+		}
+		puts := ssax.Calls(fn, false, func(ci ssa.CallInstruction) bool { return isDB(ci, "Put") })
+		if len(puts) == 0 {
+			continue
+		}
+		nPut += len(puts)
+		for _, q := range ssax.Calls(fn, false, func(ci ssa.CallInstruction) bool { return isDB(ci, "Has") || isDB(ci, "Get") }) {
+			qa := q.Common().Args
+			key := npath(qa[1])
+			var same []ssa.Instruction
+			for _, p := range puts {
+				if npath(p.Common().Args[1]) == key {
+					same = append(same, p.(ssa.Instruction))
+				}
+			}
+			if len(same) == 0 {
+				continue
+			}
+			nQ++
+			var exists []ssax.Edge
+			if isDB(q, "Has") {
+				exists = ssax.BoolEdgesOfCall(fn, q, 0, true)
+			} else {
+				exists = ssax.NilErrEdgesOfCall(fn, q)
+			}
+			for _, e := range exists {
+				dest := e.From.Succs[e.Succ]
+				if len(dest.Instrs) == 0 {
+					continue
+				}
+				reached := false
+				for _, p := range same {
+					if dest.Instrs[0] == p || ssax.ReachableFrom(fn, dest.Instrs[0], p, nil, nil) {
+						reached = true
+					}
+				}
+				if !reached {
+					bad = append(bad, sprintf("%s at %s: when %s already exists the write of that key is not reached", load.FuncName(fn), c.PosOf(q), trimPath(key)))
+				}
+			}
+		}
+	}
+	sort.Strings(bad)
+	r.Count("airgapped_db_puts", nPut)
+	r.Count("airgapped_db_query_then_put", nQ)
+	r.Check(nPut >= 2 && len(bad) == 0, "C12/R5", "airgapped:overwrite-on-replay", "every database write is performed again when the step is replayed", "",
+		sprintf("%d Put calls; %s — a replayed (or re-fed) step fails or keeps stale data where the first run succeeded, so the rebuilt machine differs from the one that never stopped", nPut, strings.Join(bad, "; ")))
 }
